@@ -32,9 +32,15 @@ struct State {
 struct Ctl {
     st: Mutex<State>,
     cv: Condvar,
+    /// scheduling points that do not park in this case (the read-path points are only used
+    /// by the workloads made for them, so the other workloads keep their step counts)
+    skip: Vec<String>,
 }
 impl Controller for Ctl {
     fn point(&self, name: &'static str) {
+        if self.skip.iter().any(|s| s == name) {
+            return;
+        }
         let me = NAME.with(|n| n.borrow().clone());
         let mut st = self.st.lock().unwrap();
         st.seq += 1;
@@ -92,7 +98,11 @@ pub fn run_case(case: &J, dir: &Path, images_every_step: bool) -> J {
         apply(&engine, &op, &mut known);
     }
     let s0 = store::observe(&engine, &known, Mode::Exact);
-    let ctl = Arc::new(Ctl { st: Mutex::new(State::default()), cv: Condvar::new() });
+    let skip: Vec<String> = match case["read_points"].as_bool() {
+        Some(true) => vec![],
+        _ => vec!["kg.publish.before_store".to_string(), "se.read.before_snapshot".to_string()],
+    };
+    let ctl = Arc::new(Ctl { st: Mutex::new(State::default()), cv: Condvar::new(), skip });
     verif_hooks::install(Some(ctl.clone() as Arc<dyn Controller>));
     let names: Vec<String> = case["threads"].as_object().unwrap().keys().cloned().collect();
     let mut handles = vec![];
